@@ -20,7 +20,7 @@ INVARIANT Inv
 def run(chk: Check):
     rng = random.Random(500 + chk.seed)
     chk.rule = ("one trace per PRNG key = the real mh_step on every (current, proposed, correction) in "
-                "{-inf,-100,-2,-0.5,0,0.25,1,+inf,NaN}^3 (vmap+jit; a subset also jit-only and eager); "
+                "{-inf,-100,-2,-0.5,0,0.25,1,+inf,NaN}^3 plus log-densities of magnitude 1e5..3e7 with exactly representable differences (vmap+jit; a subset also jit-only and eager); "
                 "non-trivial = the key's trace contains both accepted and rejected steps with 0 < acc < 1, "
                 "or the key's uniform draw is exactly 0")
     chk.trusted += ["DictInterface (log-prob read from the state)", "jax bitcast for exact state comparison"]
@@ -38,7 +38,7 @@ def run(chk: Check):
     if r.error != "invariant:Inv":
         raise MachineryError("the non-strict variant should violate ZeroNeverAccepted on the grid")
 
-    cmb = D.combos()
+    cmb = D.combos() + D.large_magnitude_combos()
     zero = D.find_zero_draw_keys(8 if chk.quick else 48)
     chk.extra["zero_draw_seeds_found"] = zero
     n_keys = 64 if chk.quick else 1024
